@@ -38,7 +38,8 @@ ESSENTIAL_LABELS = {'all': ['multi_dest', 'subgroup', 'iterate_min>=1',
                             'multi_source', 'hook:loop_all',
                             'hook:initialize_pair', 'hook:reduce',
                             'hook:py_initialize', 'pre_post',
-                            'idx_by_name', 'openmp', 'periodic_ghosts']}
+                            'idx_by_name', 'openmp', 'periodic_ghosts',
+                            'mirror_ghosts']}
 SHARD_TIMEOUT = {'quick': 1500, 'thorough': 6 * 3600}
 
 CLASSES = ['TI', 'TL', 'TIL', 'TILP', 'TA', 'TPA', 'TP', 'TR', 'TLR', 'TPY',
@@ -153,6 +154,9 @@ def program_strategy(draw, force_periodic=False):
         groups[pos:pos] = [nudge, dep]
     periodic = force_periodic or (dim == 2 and
                                   draw(st.integers(0, 2)) == 0)
+    if periodic is True and not force_periodic:
+        # kind of domain: periodic box, mirror walls, periodic x + mirror y
+        periodic = draw(st.sampled_from([True, True, 'mirror', 'mixed']))
     return dict(dim=dim, kernel=kernel, names=names, groups=groups,
                 periodic=periodic)
 
@@ -207,6 +211,12 @@ def data_strategy(draw, prog):
                            data=[draw(st.integers(0, n))]),
                 cst=dict(data=[draw(st.integers(0, 5)) * 1.0]),
             )))
+        if per in ('mirror', 'mixed'):
+            # mirror walls reflect the velocity of the image particles: the
+            # domain manager requires u, v, w
+            for vn in ('u', 'v', 'w'):
+                arrays[-1]['props'][vn] = dict(
+                    data=[draw(st.integers(-4, 4)) / 4.0 for _ in range(n)])
     return dict(arrays=arrays, t=draw(st.integers(0, 8)) / 8.0,
                 dt=draw(st.integers(1, 8)) / 64.0)
 
@@ -339,6 +349,12 @@ def make_domain(prog):
     if not prog.get('periodic'):
         return None
     from pysph.base.nnps import DomainManager
+    if prog['periodic'] == 'mirror':
+        return DomainManager(xmin=0.0, xmax=4.0, ymin=0.0, ymax=4.0,
+                             mirror_in_x=True, mirror_in_y=True)
+    if prog['periodic'] == 'mixed':
+        return DomainManager(xmin=0.0, xmax=4.0, ymin=0.0, ymax=4.0,
+                             periodic_in_x=True, mirror_in_y=True)
     return DomainManager(xmin=0.0, xmax=4.0, ymin=0.0, ymax=4.0,
                          periodic_in_x=True, periodic_in_y=True)
 
@@ -392,7 +408,8 @@ def run_data(prog, sides, data):
         feats.add('real_false_ghosts')
     feats.discard('real_false')
     if prog.get('periodic'):
-        feats.add('periodic_ghosts')
+        feats.add('periodic_ghosts' if prog['periodic'] is True
+                  else 'mirror_ghosts')
     labels += sorted(feats)
     jit.load_data(c.arrays, data['arrays'])
     jit.load_data(r.arrays, data['arrays'])
@@ -458,7 +475,9 @@ def plan(ctx):
         nprog, ndata = 25, 40
         k = 16
     return [dict(name='prog-%02d%s' % (i, '-omp' if i % 4 == 3 else ''),
-                 nprog=nprog, ndata=ndata, periodic=(i % 5 == 1),
+                 nprog=nprog, ndata=ndata,
+                 periodic=[True, 'mirror', 'mixed'][(i // 5) % 3]
+                 if i % 5 == 1 else False,
                  omp=[0, 0, 0, 4][i % 4] if i % 8 != 7 else 16)
             for i in range(k)]
 
@@ -482,7 +501,7 @@ def run_shard(spec, ctx):
               suppress_health_check=list(HealthCheck))
     @given(st.data())
     def outer(dat):
-        prog = dat.draw(program_strategy(bool(spec.get('periodic'))))
+        prog = dat.draw(program_strategy(spec.get('periodic') or False))
         first = dat.draw(data_strategy(prog))
         calls[0] += 1
         if calls[0] == 1:
